@@ -111,6 +111,18 @@ Proof.
   exact (Hok _ (H c Hc)).
 Qed.
 
+(* ---- K2: one receive() call lasts as long as the peer keeps the socket non-empty ---- *)
+Lemma receive_returns_when_socket_runs_empty cs rest :
+  tcp_receive (map RData cs ++ RWouldBlock :: rest) = (cs, Some RWaitNextEvent).
+Proof.
+  induction cs as [|c r IH]; cbn [map app tcp_receive]; [reflexivity|]. rewrite IH. reflexivity.
+Qed.
+
+Lemma read_loop_unbounded n c : tcp_receive (repeat (RData c) n) = (repeat c n, None).
+Proof.
+  induction n as [|n IH]; cbn [repeat tcp_receive]; [reflexivity|]. rewrite IH. reflexivity.
+Qed.
+
 (* C01 / C11 composition: whatever way the kernel segments the wire into reads, the FramedTcp
    receiver hands over exactly the message list *)
 Theorem framed_end_to_end (Hc : varint_consts_ok = true) m ms s reads :
